@@ -155,6 +155,11 @@ Proof.
   apply Hn. apply in_or_app. right; auto.
 Qed.
 
+Lemma NoDup_app_r {A} (a b : list A) : NoDup (a ++ b) -> NoDup b.
+Proof.
+  induction a as [|y r IH]; cbn [app]; auto. intros N. inversion N; auto.
+Qed.
+
 (* ------------------------------------------------------------------ *)
 (** * The invariant of all reachable simulator states *)
 
@@ -251,18 +256,19 @@ Record Frame (s s' : sim) : Prop := mkFrame {
   fr_ps : ps s' = ps s;
   fr_worker : worker s' = worker s;
   fr_nid : nid s <= nid s';
-  fr_created : exists l, created s' = created s ++ l;
+  fr_created : exists l, created s' = created s ++ l /\ Forall (fun e => nid s <= ev_id e) l;
   fr_cancelled : exists l, cancelled s' = l ++ cancelled s
 }.
 
 Lemma Frame_refl s : Frame s s.
-Proof. constructor; auto; try lia; exists []; [rewrite app_nil_r|]; reflexivity. Qed.
+Proof. constructor; auto; try lia; exists []; [rewrite app_nil_r; split; [reflexivity|constructor]|reflexivity]. Qed.
 
 Lemma Frame_trans a b c : Frame a b -> Frame b c -> Frame a c.
 Proof.
   intros [] []. constructor; try congruence; try lia.
-  - destruct fr_created0 as [l1 E1], fr_created1 as [l2 E2]. exists (l1 ++ l2).
-    rewrite E2, E1, app_assoc. reflexivity.
+  - destruct fr_created0 as [l1 [E1 G1]], fr_created1 as [l2 [E2 G2]]. exists (l1 ++ l2). split.
+    + rewrite E2, E1, app_assoc. reflexivity.
+    + apply Forall_app. split; auto. eapply Forall_impl; [|exact G2]. cbn; intros; lia.
   - destruct fr_cancelled0 as [l1 E1], fr_cancelled1 as [l2 E2]. exists (l2 ++ l1).
     rewrite E2, E1, app_assoc. reflexivity.
 Qed.
@@ -347,7 +353,7 @@ Qed.
 Lemma add_event_frame t prio h s : Frame s (add_event t prio h s).
 Proof.
   unfold add_event. constructor; ssimpl; auto; try lia.
-  - eexists; reflexivity.
+  - eexists; split; [reflexivity|]. constructor; [cbn; lia|constructor].
   - exists []; reflexivity.
 Qed.
 
@@ -458,6 +464,41 @@ Proof.
   - apply in_or_app. right. apply in_app_or in HA. apply in_or_app. destruct HA; [left|right; right]; auto.
 Qed.
 
+Lemma do_sched_live s m prio h : List.incl (live s) (live (do_sched s m prio h)).
+Proof.
+  unfold do_sched. destruct (sched_time s m); [|intros x Hx; exact Hx].
+  intros x Hx. change (In x (live (add_event z prio (HUser h) s))).
+  apply (Permutation_in _ (Permutation_sym (add_event_live z prio (HUser h) s))). right; auto.
+Qed.
+
+Lemma do_sched_pend s m prio h x :
+  In x (pend (do_sched s m prio h)) ->
+  In x (pend s) \/ (In x (created (do_sched s m prio h)) /\ nid s <= ev_id x).
+Proof.
+  unfold do_sched. destruct (sched_time s m); ssimpl; auto.
+  unfold add_event; ssimpl. intros Hx. apply ins_In in Hx. destruct Hx as [->|Hx]; auto.
+  right. split; [|cbn; lia]. apply in_or_app. right. left. reflexivity.
+Qed.
+
+Lemma do_cancel_incl_live s k : Inv s -> Acct s -> List.incl (live s) (live (do_cancel s k)).
+Proof.
+  intros HI HA. unfold do_cancel. destruct (nth_error (created s) k) as [e|] eqn:Hn; [|intros x Hx; exact Hx].
+  destruct (ev_mem e (pend s)) eqn:M; [|intros x Hx; exact Hx].
+  destruct (cancel_removes_it s k e HI HA Hn M) as [Hin Hp].
+  unfold live, executed in *; ssimpl. intros x Hx.
+  apply in_app_or in Hx. destruct Hx as [Hx|Hx].
+  - apply (Permutation_in _ Hp) in Hx. destruct Hx as [<-|Hx].
+    + apply in_or_app. right. apply in_or_app. right. left. reflexivity.
+    + apply in_or_app. left. auto.
+  - apply in_or_app. right. apply in_app_or in Hx. apply in_or_app. destruct Hx; [left|right; right]; auto.
+Qed.
+
+Lemma do_cancel_pend s k x : In x (pend (do_cancel s k)) -> In x (pend s).
+Proof.
+  unfold do_cancel. destruct (nth_error (created s) k) as [e|]; auto.
+  destruct (ev_mem e (pend s)); auto. ssimpl. apply rem_incl.
+Qed.
+
 (** Cancelling an event that is not pending (already executed, already
     cancelled, never created) changes nothing at all. *)
 Lemma cancel_unknown_noop s k : nth_error (created s) k = None -> do_cancel s k = s.
@@ -506,27 +547,37 @@ Qed.
 Record HStep (s s' : sim) : Prop := mkHStep {
   hs_frame : Frame s s';
   hs_inv : Inv s -> Inv s';
-  hs_acct : Inv s -> Acct s -> Acct s'
+  hs_acct : Inv s -> Acct s -> Acct s';
+  hs_live : Inv s -> Acct s -> List.incl (live s) (live s');
+  hs_pend : forall x, In x (pend s') -> In x (pend s) \/ (In x (created s') /\ nid s <= ev_id x)
 }.
 
 Lemma HStep_refl s : HStep s s.
-Proof. constructor; auto using Frame_refl. Qed.
+Proof. constructor; auto using Frame_refl. intros _ _ x Hx; exact Hx. Qed.
 
 Lemma HStep_trans a b c : HStep a b -> HStep b c -> HStep a c.
 Proof.
-  intros [F1 I1 A1] [F2 I2 A2]. constructor; eauto using Frame_trans.
+  intros [F1 I1 A1 L1 P1] [F2 I2 A2 L2 P2]. constructor; eauto using Frame_trans.
+  - intros HI HA x Hx. apply L2; [apply I1; auto|apply A1; auto|apply L1; auto].
+  - intros x Hx. destruct (P2 x Hx) as [H|H]; [destruct (P1 x H) as [H'|H']; auto|].
+    + right. destruct H' as [H' Hn]. split; auto.
+      destruct (fr_created _ _ F2) as [l [-> _]]. apply in_or_app. left; auto.
+    + right. destruct H as [H Hn]. split; auto. pose proof (fr_nid _ _ F1). lia.
 Qed.
 
 Lemma HStep_logonly s t : LogOnly s t -> HStep s t.
 Proof.
   intros L. constructor; intros; eauto using LogOnly_Frame, LogOnly_Inv, LogOnly_Acct.
+  - destruct L as (C&_). rewrite <- (live_core _ _ C). intros x Hx; exact Hx.
+  - destruct L as ((C&_)&_). left. rewrite C. auto.
 Qed.
 
 Lemma exec_action_hstep md s a : HStep s (fst (exec_action md s a)).
 Proof.
   destruct a; cbn [exec_action fst].
-  - constructor; intros; auto using do_sched_frame, do_sched_inv, do_sched_acct.
-  - constructor; intros; auto using do_cancel_frame, do_cancel_inv, do_cancel_acct.
+  - constructor; intros; auto using do_sched_frame, do_sched_inv, do_sched_acct, do_sched_live, do_sched_pend.
+  - constructor; intros; auto using do_cancel_frame, do_cancel_inv, do_cancel_acct, do_cancel_incl_live.
+    left. eapply do_cancel_pend; eauto.
   - apply HStep_refl.
   - apply HStep_logonly, inner_cmd_logonly.
   - apply HStep_logonly. logonly.
@@ -598,18 +649,24 @@ Proof. unfold time_ntf. destruct (ev_time e =? clock s); logonly. Qed.
 Record Took (s : sim) (e : ev) (r : list ev) (s' : sim) : Prop := mkTook {
   tk_frame : Frame (popped s e r) s';
   tk_inv : Inv s -> Inv s';
-  tk_acct : Inv s -> Acct s -> Acct s'
+  tk_acct : Inv s -> Acct s -> Acct s';
+  tk_live : Inv s -> Acct s -> List.incl (live s) (live s');
+  tk_pend : forall x, In x (pend s') -> In x r \/ (In x (created s') /\ nid s <= ev_id x)
 }.
 
 Lemma took_of_hstep s e r s0 s' :
   pend s = e :: r -> LogOnly (popped s e r) s0 -> HStep s0 s' -> Took s e r s'.
 Proof.
-  intros Hp L [F I A]. constructor.
+  intros Hp L [F I A Lv P].
+  assert (I0 : Inv s -> Inv s0) by (intros HI; eapply LogOnly_Inv; [exact L|]; apply popped_inv; auto).
+  assert (A0 : Acct s -> Acct s0) by (intros HA; eapply LogOnly_Acct; [exact L|]; apply popped_acct; auto).
+  constructor; auto.
   - eapply Frame_trans; [apply LogOnly_Frame; exact L|exact F].
-  - intros HI. apply I. eapply LogOnly_Inv; [exact L|]. apply popped_inv; auto.
-  - intros HI HA. apply A.
-    + eapply LogOnly_Inv; [exact L|]. apply popped_inv; auto.
-    + eapply LogOnly_Acct; [exact L|]. apply popped_acct; auto.
+  - intros HI HA x Hx. apply Lv; auto. destruct L as (C&_). rewrite <- (live_core _ _ C).
+    apply (Permutation_in _ (popped_live s e r Hp)). exact Hx.
+  - destruct L as ((C&Cn&_)&_). intros x Hx. destruct (P x Hx) as [H|H].
+    + left. rewrite <- C in H. unfold popped in H; ssimpl. exact H.
+    + right. rewrite <- Cn in H. unfold popped in H; ssimpl. exact H.
 Qed.
 
 Lemma take_event_took p s e r : pend s = e :: r -> Took s e r (take_event p s e r).
@@ -623,10 +680,9 @@ Proof.
   { unfold s2, popped. destruct (ev_time e =? clock (set_pend r s)); logonly. }
   assert (T : Took s e r s3) by (eapply took_of_hstep; eauto).
   destruct failed; [destruct (strat s3)|]; auto.
-  destruct T as [F I A]. constructor.
+  destruct T as [F I A Lv P]. constructor; auto.
   - eapply Frame_trans; [exact F|]. apply LogOnly_Frame. logonly.
   - intros HI. eapply LogOnly_Inv; [|apply I; exact HI]. logonly.
-  - intros HI HA. eapply LogOnly_Acct; [|apply A; auto]. logonly.
 Qed.
 
 Lemma step_event_took p s e r : pend s = e :: r -> Took s e r (step_event p s e r).
@@ -638,14 +694,24 @@ Proof.
 Qed.
 
 Lemma took_clock s e r s' : Took s e r s' -> clock s' = ev_time e.
-Proof. intros [F _ _]. rewrite (fr_clock _ _ F). reflexivity. Qed.
+Proof. intros [F _ _ _ _]. rewrite (fr_clock _ _ F). reflexivity. Qed.
 
 Lemma took_trace s e r s' : Took s e r s' -> trace s' = (e, ev_time e) :: trace s.
-Proof. intros [F _ _]. rewrite (fr_trace _ _ F). reflexivity. Qed.
+Proof. intros [F _ _ _ _]. rewrite (fr_trace _ _ F). reflexivity. Qed.
+
+Lemma took_created s e r s' :
+  Took s e r s' -> exists l, created s' = created s ++ l /\ Forall (fun x => nid s <= ev_id x) l.
+Proof. intros [F _ _ _ _]. apply (fr_created _ _ F). Qed.
+
+Lemma took_nid s e r s' : Took s e r s' -> nid s <= nid s'.
+Proof. intros [F _ _ _ _]. apply (fr_nid _ _ F). Qed.
+
+Lemma took_cancelled s e r s' : Took s e r s' -> exists l, cancelled s' = l ++ cancelled s.
+Proof. intros [F _ _ _ _]. apply (fr_cancelled _ _ F). Qed.
 
 Lemma took_bound s e r s' : Took s e r s' -> bound s' = bound s /\ incl s' = incl s /\ rep s' = rep s
                                            /\ ps s' = ps s /\ strat s' = strat s /\ worker s' = worker s.
-Proof. intros [F _ _]. destruct F. unfold popped in *; ssimpl. auto 10. Qed.
+Proof. intros [F _ _ _ _]. destruct F. unfold popped in *; ssimpl. auto 10. Qed.
 
 (* ------------------------------------------------------------------ *)
 (** * Time order of the executed-event log *)
@@ -756,7 +822,7 @@ Record RunsFacts (s : sim) (evs : list ev) (s' : sim) : Prop := mkRunsFacts {
 Lemma runs_facts p s evs s' : runs p s evs s' -> RunsFacts s evs s'.
 Proof.
   induction 1 as [s|s e r evs s' R Hp B H IH].
-  - constructor; auto using Mono_refl; try tauto. constructor.
+  - constructor; auto using Mono_refl; try tauto; auto 10.
   - pose proof (take_event_took p s e r Hp) as T.
     destruct (took_bound _ _ _ _ T) as (Tb&Ti&Tr&Tp&Ts&Tw).
     destruct IH as [I A M Tr' Bd Le Ck]. constructor.
@@ -826,7 +892,8 @@ Proof.
   intros HI HB. pose proof (head_beyond_all s HI HB) as All. destruct HI as [H1 H2 H3 H4 H5 H6].
   assert (G : Forall (fun e => bound s <= ev_time e) (pend s)).
   { apply Forall_forall. intros e He. apply beyond_true_ge. auto. }
-  unfold stop_at_bound. destruct (bound s >=? end_time (set_clock (bound s) s)); constructor; ssimpl; auto.
+  unfold stop_at_bound. cbv zeta.
+  match goal with |- context [if ?c then _ else _] => destruct c end; constructor; ssimpl; auto.
 Qed.
 
 Lemma stop_at_bound_core s : core_eq s (stop_at_bound s).
@@ -842,8 +909,7 @@ Qed.
 Lemma loop_exit_acct s1 s' : Acct s1 -> loop_exit s1 s' -> Acct s'.
 Proof.
   intros HA [R ->|R HB ->|R ->]; auto.
-  - eapply Acct_core; [apply stop_at_bound_core|auto].
-  - eapply Acct_core; [|exact HA]. unfold core_eq; ssimpl; auto 10.
+  eapply Acct_core; [apply stop_at_bound_core|auto].
 Qed.
 
 Lemma loop_exit_mono s1 s' : clock s1 <= bound s1 -> loop_exit s1 s' -> Mono s1 s'.
@@ -873,4 +939,587 @@ Proof.
   pose proof (runs_facts _ _ _ _ H1) as F.
   eapply Mono_trans; [apply (rf_mono _ _ _ F HI)|]. apply loop_exit_mono; auto.
   destruct (rf_bound _ _ _ F) as (->&_). apply (rf_clock _ _ _ F L).
+Qed.
+
+(* ------------------------------------------------------------------ *)
+(** * Commands *)
+
+Definition CoreClk (s t : sim) : Prop := core_eq s t /\ clock t = clock s.
+
+Lemma CoreClk_Inv s t : CoreClk s t -> Inv s -> Inv t.
+Proof. intros [C E]. apply Inv_core; auto. Qed.
+Lemma CoreClk_Acct s t : CoreClk s t -> Acct s -> Acct t.
+Proof. intros [C E]. apply Acct_core; auto. Qed.
+Lemma CoreClk_Mono s t : CoreClk s t -> Mono s t.
+Proof. intros [(_&_&_&T&_) E]. apply Mono_same; auto. lia. Qed.
+Lemma CoreClk_trans a b c : CoreClk a b -> CoreClk b c -> CoreClk a c.
+Proof. intros [C1 E1] [C2 E2]. split; [eapply core_eq_trans; eauto|congruence]. Qed.
+
+Ltac coreclk := unfold CoreClk, core_eq; ssimpl; auto 20.
+
+Lemma worker_ending_coreclk s : CoreClk s (worker_ending s).
+Proof. unfold worker_ending. destruct (ps s); coreclk. Qed.
+
+(* one lemma for the three properties of a whole command *)
+Record CmdFacts (s s' : sim) : Prop := mkCmdFacts {
+  cf_inv : Inv s -> Inv s';
+  cf_acct : Inv s -> Acct s -> Acct s';
+  cf_mono : Inv s -> Mono s s'
+}.
+
+Lemma CmdFacts_coreclk s t : CoreClk s t -> CmdFacts s t.
+Proof. intros H. constructor; intros; eauto using CoreClk_Inv, CoreClk_Acct, CoreClk_Mono. Qed.
+
+Lemma CmdFacts_refl s : CmdFacts s s.
+Proof. apply CmdFacts_coreclk. coreclk. Qed.
+
+Lemma CmdFacts_trans a b c : CmdFacts a b -> CmdFacts b c -> CmdFacts a c.
+Proof. intros [I1 A1 M1] [I2 A2 M2]. constructor; eauto using Mono_trans. Qed.
+
+Lemma run_loop_facts p fuel s : clock s <= bound s -> CmdFacts s (run_loop fuel p s).
+Proof.
+  intros L. constructor; intros; auto using run_loop_inv, run_loop_acct, run_loop_mono.
+Qed.
+
+Lemma worker_run_facts p fuel s : clock s <= bound s -> CmdFacts s (worker_run fuel p s).
+Proof.
+  intros L. unfold worker_run. destruct (worker s); try apply CmdFacts_refl.
+  assert (R : CmdFacts s (set_rs RStopped
+       (emit (NStop (clock (run_loop fuel p (set_rs RStarted (emit (NStart (clock s)) s)))))
+          (run_loop fuel p (set_rs RStarted (emit (NStart (clock s)) s)))))).
+  { eapply CmdFacts_trans; [|apply CmdFacts_coreclk; coreclk].
+    eapply CmdFacts_trans; [|apply run_loop_facts; ssimpl; exact L].
+    apply CmdFacts_coreclk; coreclk. }
+  destruct (ps s);
+    (eapply CmdFacts_trans; [|apply CmdFacts_coreclk, worker_ending_coreclk]);
+    solve [exact R | apply CmdFacts_refl].
+Qed.
+
+Lemma start_checks_clock s : start_checks s = true -> clock s < end_time s.
+Proof.
+  unfold start_checks. intros H. apply andb_true_iff in H. destruct H as [_ H]. apply Z.ltb_lt; auto.
+Qed.
+
+Lemma do_start_facts p fuel s b i : CmdFacts s (fst (do_start fuel p s b i)).
+Proof.
+  unfold do_start. destruct (start_checks s) eqn:Ck; [|apply CmdFacts_refl].
+  destruct b as [bz|]; [|apply CmdFacts_refl].
+  destruct (Z.ltb_spec bz (clock s)); [apply CmdFacts_refl|].
+  pose proof (start_checks_clock s Ck) as Le.
+  destruct (Z.gtb_spec bz (end_time s)); cbn [fst].
+  - eapply CmdFacts_trans; [|apply worker_run_facts].
+    + apply CmdFacts_coreclk. ssimpl. destruct (ps s); coreclk.
+    + ssimpl. destruct (ps s); ssimpl; lia.
+  - eapply CmdFacts_trans; [|apply worker_run_facts].
+    + apply CmdFacts_coreclk. ssimpl. destruct (ps s); coreclk.
+    + ssimpl. destruct (ps s); ssimpl; lia.
+Qed.
+
+Lemma took_facts s e r s' : pend s = e :: r -> Took s e r s' -> CmdFacts s s'.
+Proof.
+  intros Hp T. constructor.
+  - apply (tk_inv _ _ _ _ T).
+  - apply (tk_acct _ _ _ _ T).
+  - intros HI. eapply took_mono; eauto.
+Qed.
+
+Lemma do_step_facts p s : CmdFacts s (fst (do_step p s)).
+Proof.
+  unfold do_step. destruct (step_checks s); [|apply CmdFacts_refl]. cbv zeta. cbn [fst].
+  set (s1 := match ps s with PInit => _ | _ => s end).
+  set (s2 := emit (NStart (clock s1)) (set_rs RStarted s1)).
+  eapply CmdFacts_trans; [|apply CmdFacts_coreclk; coreclk].
+  assert (C : CoreClk s s2) by (unfold s2, s1; destruct (ps s); coreclk).
+  eapply CmdFacts_trans; [apply CmdFacts_coreclk; exact C|].
+  destruct (pend s2) as [|e r] eqn:Hp; [apply CmdFacts_refl|].
+  destruct (ev_time e >? end_time s2); [apply CmdFacts_refl|].
+  eapply took_facts; [exact Hp|]. apply step_event_took; auto.
+Qed.
+
+Lemma do_cleanup_coreclk s : CoreClk s (do_cleanup s).
+Proof. unfold do_cleanup. coreclk. Qed.
+
+(* dropping the pending events and moving the clock *)
+Lemma Inv_clear s c : Inv s -> Inv (set_clock c (set_pend [] s)).
+Proof.
+  intros [H1 H2 H3 H4 H5 H6]. unfold live in *. unfold ids in *. rewrite map_app in *.
+  constructor; unfold live, ids; ssimpl; auto; cbn [app]; try constructor.
+  - apply Forall_app in H3. tauto.
+  - eapply NoDup_app_r; eauto.
+Qed.
+
+Lemma do_end_repl_inv p fuel s : Inv s -> Inv (fst (do_end_repl fuel p s)).
+Proof.
+  intros HI. unfold do_end_repl. destruct (ps s); auto. cbn [fst].
+  set (s2 := set_pend [] _).
+  assert (Inv s2).
+  { unfold s2. destruct (clock s <? end_time s).
+    - eapply CoreClk_Inv; [|apply (Inv_clear s (end_time s) HI)]. coreclk.
+    - eapply CoreClk_Inv; [|apply (Inv_clear s (clock s) HI)]. coreclk. }
+  unfold worker_run. destruct (worker s2) eqn:W; auto.
+  replace (ps s2) with PEnding by reflexivity. cbv iota.
+  eapply CoreClk_Inv; [apply worker_ending_coreclk|auto].
+Qed.
+
+Lemma do_end_repl_mono p fuel s : Mono s (fst (do_end_repl fuel p s)).
+Proof.
+  unfold do_end_repl. destruct (ps s); try apply Mono_refl. cbn [fst].
+  set (s2 := set_pend [] _).
+  assert (M : Mono s s2).
+  { unfold s2. destruct (Z.ltb_spec (clock s) (end_time s)); apply Mono_same; ssimpl; auto; lia. }
+  unfold worker_run. destruct (worker s2) eqn:W; auto.
+Qed.
+
+Lemma do_init_inv p s r : Inv s -> Inv (fst (do_init p s r)).
+Proof.
+  intros HI. unfold do_init. destruct (running s); auto.
+  set (s2 := set_created [] _).
+  assert (I2 : Inv s2).
+  { pose proof (Inv_clear s (r_start r) HI) as [H1 H2 H3 H4 H5 H6].
+    unfold s2. destruct (worker (set_pend [] s)); constructor; ssimpl; auto; constructor. }
+  pose proof (exec_actions_hstep InConstruct (body p 0) s2) as HS.
+  destruct (exec_actions InConstruct s2 (body p 0)) as [s3 failed]. cbn [fst] in HS.
+  pose proof (hs_inv _ _ HS I2) as I3.
+  set (s5 := set_ps PInit _).
+  assert (I5 : Inv s5) by (eapply CoreClk_Inv; [|exact I3]; unfold s5; destruct failed; coreclk).
+  cbn [fst]. destruct (Z.ltb_spec (r_warm r) (clock s5)).
+  - eapply CoreClk_Inv; [|exact I5]. coreclk.
+  - apply (ins_event_inv (mkEv (r_warm r) 10 (nid s5) HWarm 0) s5); auto.
+Qed.
+
+Lemma do_init_acct p s r : Inv s -> running s = false -> Acct (fst (do_init p s r)).
+Proof.
+  intros HI R. unfold do_init. rewrite R.
+  set (s2 := set_created [] _).
+  assert (I2 : Inv s2).
+  { pose proof (Inv_clear s (r_start r) HI) as [H1 H2 H3 H4 H5 H6].
+    unfold s2. destruct (worker (set_pend [] s)); constructor; ssimpl; auto; constructor. }
+  assert (A2 : Acct s2).
+  { unfold Acct, s2. destruct (worker (set_pend [] s)); ssimpl; intros x []. }
+  pose proof (exec_actions_hstep InConstruct (body p 0) s2) as HS.
+  destruct (exec_actions InConstruct s2 (body p 0)) as [s3 failed]. cbn [fst] in HS.
+  pose proof (hs_acct _ _ HS I2 A2) as A3.
+  set (s5 := set_ps PInit _).
+  assert (A5 : Acct s5) by (eapply CoreClk_Acct; [|exact A3]; unfold s5; destruct failed; coreclk).
+  cbn [fst]. destruct (Z.ltb_spec (r_warm r) (clock s5)).
+  - eapply CoreClk_Acct; [|exact A5]. coreclk.
+  - intros x Hx. apply (Permutation_in _ (Permutation_sym (ins_event_live _ s5))).
+    right. apply A5. exact Hx.
+Qed.
+
+Theorem do_cmd_inv p fuel s c : Inv s -> Inv (fst (do_cmd fuel p s c)).
+Proof.
+  intros HI. destruct c; cbn [do_cmd fst]; auto.
+  - apply do_init_inv; auto.
+  - destruct (rep s); auto. apply (cf_inv _ _ (do_start_facts p fuel s _ _)); auto.
+  - apply (cf_inv _ _ (do_step_facts p s)); auto.
+  - destruct (running s); auto. cbn [fst]. eapply CoreClk_Inv; [|exact HI]. coreclk.
+  - apply (cf_inv _ _ (do_start_facts p fuel s _ _)); auto.
+  - apply (cf_inv _ _ (do_start_facts p fuel s _ _)); auto.
+  - apply do_end_repl_inv; auto.
+  - eapply CoreClk_Inv; [apply do_cleanup_coreclk|auto].
+Qed.
+
+Definition is_init (c : cmd) : bool := match c with CInit _ => true | _ => false end.
+Definition is_endrepl (c : cmd) : bool := match c with CEndRepl => true | _ => false end.
+
+Theorem do_cmd_acct p fuel s c :
+  is_endrepl c = false -> Inv s -> Acct s -> Acct (fst (do_cmd fuel p s c)).
+Proof.
+  intros Hc HI HA. destruct c; cbn [do_cmd fst]; auto; try discriminate.
+  - destruct (running s) eqn:R; [unfold do_init; rewrite R; auto|apply do_init_acct; auto].
+  - destruct (rep s); auto. apply (cf_acct _ _ (do_start_facts p fuel s _ _)); auto.
+  - apply (cf_acct _ _ (do_step_facts p s)); auto.
+  - destruct (running s); auto.
+  - apply (cf_acct _ _ (do_start_facts p fuel s _ _)); auto.
+  - apply (cf_acct _ _ (do_start_facts p fuel s _ _)); auto.
+Qed.
+
+(** The clock never moves backwards, and executed events are logged in
+    non-decreasing time order, under every command but a re-initialisation. *)
+Theorem do_cmd_mono p fuel s c :
+  is_init c = false -> Inv s -> Mono s (fst (do_cmd fuel p s c)).
+Proof.
+  intros Hc HI. destruct c; cbn [do_cmd fst]; try apply Mono_refl; try discriminate.
+  - destruct (rep s); [|apply Mono_refl]. apply (cf_mono _ _ (do_start_facts p fuel s _ _)); auto.
+  - apply (cf_mono _ _ (do_step_facts p s)); auto.
+  - destruct (running s); [|apply Mono_refl]. cbn [fst]. apply Mono_same; ssimpl; auto; lia.
+  - apply (cf_mono _ _ (do_start_facts p fuel s _ _)); auto.
+  - apply (cf_mono _ _ (do_start_facts p fuel s _ _)); auto.
+  - apply do_end_repl_mono.
+  - apply CoreClk_Mono, do_cleanup_coreclk.
+Qed.
+
+(* ------------------------------------------------------------------ *)
+(** * Reachable states *)
+
+Inductive reachable (p : program) : sim -> Prop :=
+| reach_init st : reachable p (init_sim st)
+| reach_cmd s fuel c : reachable p s -> reachable p (fst (do_cmd fuel p s c)).
+
+Theorem reachable_inv p s : reachable p s -> Inv s.
+Proof. induction 1; auto using Inv_init, do_cmd_inv. Qed.
+
+Lemma run_cmds_app fuel p cs : forall s,
+  fst (run_cmds fuel p s cs) = fold_left (fun a c => fst (do_cmd fuel p a c)) cs s.
+Proof.
+  induction cs as [|c r IH]; intros s; cbn [run_cmds fold_left fst]; auto.
+  destruct (do_cmd fuel p s c) as [s1 res] eqn:E.
+  specialize (IH s1). destruct (run_cmds fuel p s1 r) as [s2 sn]. cbn [fst] in *. exact IH.
+Qed.
+
+Lemma run_cmds_reachable fuel p cs : forall s, reachable p s -> reachable p (fst (run_cmds fuel p s cs)).
+Proof.
+  intros s H. rewrite run_cmds_app. revert s H.
+  induction cs as [|c r IH]; intros s H; cbn [fold_left]; auto.
+  apply IH. constructor. auto.
+Qed.
+
+(* ------------------------------------------------------------------ *)
+(** * Exactly once *)
+
+Lemma NoDup_app_l {A} (a b : list A) : NoDup (a ++ b) -> NoDup a.
+Proof.
+  induction a as [|y r IH]; cbn [app]; [constructor|].
+  intros N. inversion N as [|? ? Hn Hr]; subst. constructor; auto.
+  intros Hy. apply Hn. apply in_or_app. left; auto.
+Qed.
+
+Lemma NoDup_map_NoDup {A B} (f : A -> B) l : NoDup (map f l) -> NoDup l.
+Proof.
+  induction l as [|x r IH]; cbn [map]; [constructor|].
+  intros N. inversion N as [|? ? Hn Hr]; subst. constructor; auto.
+  intros Hx. apply Hn. apply in_map; auto.
+Qed.
+
+(** No event is executed twice: the ids of the executed-event log are
+    pairwise distinct, for every fuel and in every reachable state. *)
+Lemma Inv_exec_nodup s : Inv s -> NoDup (ids (executed s)).
+Proof.
+  intros HI. pose proof (inv_nodup _ HI) as N. unfold live in N. rewrite !ids_app in N.
+  apply NoDup_app_r in N. apply NoDup_app_l in N. exact N.
+Qed.
+
+(* pending, executed and cancelled events are pairwise different events *)
+Lemma Inv_disjoint s e :
+  Inv s ->
+  (In e (pend s) -> ~ In e (executed s) /\ ~ In e (cancelled s))
+  /\ (In e (executed s) -> ~ In e (cancelled s)).
+Proof.
+  intros HI. pose proof (inv_nodup _ HI) as N. unfold live in N. rewrite !ids_app in N. split.
+  - intros Hp. split; intros H; apply (NoDup_app_disj _ _ (ev_id e) N).
+    + apply in_map; auto.
+    + apply in_or_app. left. apply in_map; auto.
+    + apply in_map; auto.
+    + apply in_or_app. right. apply in_map; auto.
+  - intros He Hc. apply NoDup_app_r in N. apply (NoDup_app_disj _ _ (ev_id e) N); apply in_map; auto.
+Qed.
+
+Lemma beyond_eq s t e : bound t = bound s -> incl t = incl s -> beyond t e = beyond s e.
+Proof. unfold beyond. intros -> ->. reflexivity. Qed.
+
+(* where the events of a run come from and go to *)
+Record RunsFlow (s : sim) (evs : list ev) (s' : sim) : Prop := mkRunsFlow {
+  rw_live : Inv s -> Acct s -> List.incl (live s) (live s');
+  rw_pend : forall x, In x (pend s') -> In x (pend s) \/ (In x (created s') /\ nid s <= ev_id x);
+  rw_created : exists l, created s' = created s ++ l /\ Forall (fun x => nid s <= ev_id x) l;
+  rw_nid : nid s <= nid s';
+  rw_within : Forall (fun e => beyond s e = false) evs;
+  rw_from : forall e, In e evs -> In e (pend s) \/ (In e (created s') /\ nid s <= ev_id e)
+}.
+
+Lemma runs_flow p s evs s' : runs p s evs s' -> RunsFlow s evs s'.
+Proof.
+  induction 1 as [s|s e r evs s' R Hp B H IH].
+  - constructor; auto; try lia.
+    + intros _ _ x Hx; exact Hx.
+    + exists []. rewrite app_nil_r. split; auto.
+    + intros e [].
+  - pose proof (take_event_took p s e r Hp) as T.
+    destruct (took_bound _ _ _ _ T) as (Tb&Ti&_).
+    destruct (took_created _ _ _ _ T) as [l1 [E1 G1]].
+    pose proof (took_nid _ _ _ _ T) as Tn.
+    destruct IH as [Lv P [l2 [E2 G2]] Nn W Fr].
+    assert (Htail : forall x, In x (pend (take_event p s e r)) ->
+                              In x (pend s) \/ (In x (created s') /\ nid s <= ev_id x)).
+    { intros x Hx. destruct (tk_pend _ _ _ _ T x Hx) as [Q|[Q Qn]]; [left; rewrite Hp; right; auto|].
+      right. split; auto. rewrite E2. apply in_or_app. left; auto. }
+    constructor.
+    + intros HI HA x Hx. apply Lv.
+      * apply (tk_inv _ _ _ _ T HI).
+      * apply (tk_acct _ _ _ _ T HI HA).
+      * apply (tk_live _ _ _ _ T HI HA). exact Hx.
+    + intros x Hx. destruct (P x Hx) as [Q|[Q Qn]]; auto. right. split; auto. lia.
+    + exists (l1 ++ l2). split; [rewrite E2, E1, app_assoc; reflexivity|].
+      apply Forall_app. split; auto. eapply Forall_impl; [|exact G2].
+      cbn. intros x Hx. lia.
+    + lia.
+    + constructor; auto. eapply Forall_impl; [|exact W]. cbn. intros x Hx.
+      rewrite <- (beyond_eq s _ x Tb Ti). exact Hx.
+    + intros x [<-|Hx]; [left; rewrite Hp; left; auto|].
+      destruct (Fr x Hx) as [Q|[Q Qn]]; auto. right. split; auto. lia.
+Qed.
+
+(* an event of created s' with a fresh id is one of the newly created ones *)
+Lemma fresh_is_new s (old newc : list ev) e :
+  Forall (fun i => i < nid s) (ids old) -> In e (old ++ newc) -> nid s <= ev_id e -> In e newc.
+Proof.
+  intros F Hin Hn. apply in_app_or in Hin. destruct Hin as [Hin|Hin]; auto. exfalso.
+  rewrite Forall_forall in F. specialize (F (ev_id e) (in_map ev_id _ _ Hin)). lia.
+Qed.
+
+Lemma executed_after_runs s evs s' :
+  trace s' = rev (map (fun e => (e, ev_time e)) evs) ++ trace s ->
+  executed s' = rev evs ++ executed s.
+Proof.
+  intros E. unfold executed. rewrite E, map_app, map_rev, map_map. cbn [fst]. rewrite map_id. reflexivity.
+Qed.
+
+(** A run that reaches the end of its horizon (the loop leaves through the
+    bound test; with the bound at the replication end this is observable as
+    the replication state ENDING) has executed exactly the events that were
+    pending or got scheduled during the run, were not cancelled while pending
+    and lie within the horizon; what is left pending lies beyond it. *)
+Theorem run_loop_complete p fuel s :
+  Inv s -> Acct s -> running s = true -> ps s = PStarted ->
+  ps (run_loop fuel p s) = PEnding ->
+  let s' := run_loop fuel p s in
+  exists evs newc,
+    executed s' = rev evs ++ executed s
+    /\ created s' = created s ++ newc
+    /\ clock s' = bound s /\ end_time s <= bound s
+    /\ (forall e, In e evs -> In e (pend s) \/ In e newc)
+    /\ (forall e, In e (pend s) \/ In e newc ->
+          (In e evs <-> (~ In e (cancelled s') /\ beyond s e = false)))
+    /\ (forall e, In e (pend s') -> beyond s e = true).
+Proof.
+  intros HI HA R Hps Hend s'.
+  destruct (run_loop_runs p fuel s) as [evs [s1 [H1 H2]]]. fold s' in H2, Hend.
+  pose proof (runs_facts _ _ _ _ H1) as F. pose proof (runs_flow _ _ _ _ H1) as W.
+  destruct (rf_bound _ _ _ F) as (Fb&Fi&Fr&Fp&_).
+  pose proof (rf_inv _ _ _ F HI) as HI1. pose proof (rf_acct _ _ _ F HI HA) as HA1.
+  assert (Hps1 : ps s1 = PStarted) by congruence.
+  destruct H2 as [R1 E|R1 HB E|R1 E].
+  { exfalso. rewrite E, Hps1 in Hend. discriminate. }
+  2: { exfalso. rewrite E in Hend. unfold raise_flag in Hend. ssimpl. rewrite Hps1 in Hend. discriminate. }
+  assert (Ecore : core_eq s1 s') by (rewrite E; apply stop_at_bound_core).
+  destruct Ecore as (Ep&En&Ec&Et&Ex&Er).
+  assert (HI' : Inv s') by (rewrite E; apply stop_at_bound_inv; auto).
+  assert (HA' : Acct s') by (eapply Acct_core; [|exact HA1]; rewrite E; apply stop_at_bound_core).
+  assert (Lv' : live s1 = live s') by (apply live_core; rewrite E; apply stop_at_bound_core).
+  destruct (rw_created _ _ _ W) as [newc [Ecr Gcr]].
+  assert (Hex : executed s' = rev evs ++ executed s).
+  { apply executed_after_runs. rewrite <- Et. apply (rf_trace _ _ _ F). }
+  assert (Hbey : forall e, In e (pend s') -> beyond s e = true).
+  { intros e He. rewrite <- Ep in He. rewrite <- (beyond_eq s s1 e Fb Fi).
+    apply head_beyond_all; auto. }
+  assert (Hfrom : forall e, In e evs -> In e (pend s) \/ In e newc).
+  { intros e He. destruct (rw_from _ _ _ W e He) as [Q|[Q Qn]]; auto. right.
+    rewrite Ecr in Q. eapply fresh_is_new; eauto. apply (inv_cre _ HI). }
+  exists evs, newc. repeat split; auto.
+  - rewrite <- Ec. exact Ecr.
+  - rewrite E. unfold stop_at_bound. cbv zeta.
+    match goal with |- context [if ?c then _ else _] => destruct c end; ssimpl; auto.
+  - rewrite E in Hend. unfold stop_at_bound in Hend. cbv zeta in Hend.
+    destruct (Z.geb_spec (bound s1) (end_time s1)) as [G|G].
+    + unfold end_time in *. rewrite Fr, Fb in G. lia.
+    + ssimpl. rewrite Hps1 in Hend. discriminate.
+  - intros Hc. assert (In e (executed s')) by (rewrite Hex; apply in_or_app; left; apply -> in_rev; auto).
+    apply (proj2 (Inv_disjoint s' e HI')); auto.
+  - pose proof (rw_within _ _ _ W) as Wn. rewrite Forall_forall in Wn. auto.
+  - intros [Hnc Hb].
+    assert (Hl : In e (live s')).
+    { destruct H as [Q|Q].
+      - rewrite <- Lv'. apply (rw_live _ _ _ W HI HA). unfold live. apply in_or_app. left; auto.
+      - apply HA'. rewrite <- Ec, Ecr. apply in_or_app. right; auto. }
+    unfold live in Hl. apply in_app_or in Hl. destruct Hl as [Hl|Hl].
+    { rewrite (Hbey e Hl) in Hb. discriminate. }
+    apply in_app_or in Hl. destruct Hl as [Hl|Hl]; [|contradiction].
+    rewrite Hex in Hl. apply in_app_or in Hl. destruct Hl as [Hl|Hl]; [apply in_rev; auto|].
+    exfalso. destruct H as [Q|Q].
+    + apply (proj1 (proj1 (Inv_disjoint s e HI) Q)). exact Hl.
+    + pose proof (inv_ids _ HI) as Ids. rewrite Forall_forall in Ids.
+      assert (ev_id e < nid s).
+      { apply Ids. unfold ids, live. apply in_map. apply in_or_app. right. apply in_or_app. left; auto. }
+      rewrite Forall_forall in Gcr. specialize (Gcr e Q). cbn in Gcr. lia.
+Qed.
+
+(* ------------------------------------------------------------------ *)
+(** * Statements about reachable states and whole commands *)
+
+Theorem pending_ge_clock p s :
+  reachable p s -> Forall (fun e => clock s <= ev_time e) (pend s).
+Proof. intros H. apply (inv_ge _ (reachable_inv _ _ H)). Qed.
+
+Theorem clock_at_exec p s :
+  reachable p s -> Forall (fun ec => snd ec = ev_time (fst ec)) (trace s).
+Proof. intros H. apply (inv_clk _ (reachable_inv _ _ H)). Qed.
+
+Theorem at_most_once p s : reachable p s -> NoDup (ids (executed s)).
+Proof. intros H. apply Inv_exec_nodup, (reachable_inv _ _ H). Qed.
+
+Theorem pending_sorted_unique p s :
+  reachable p s -> StronglySorted ev_lt (pend s) /\ NoDup (ids (pend s)).
+Proof.
+  intros H. pose proof (reachable_inv _ _ H) as HI. split; [apply (inv_sorted _ HI)|].
+  pose proof (inv_nodup _ HI) as N. unfold live in N. rewrite ids_app in N. apply NoDup_app_l in N. auto.
+Qed.
+
+Lemma run_cmds_mono p fuel cs : forall s,
+  Inv s -> forallb (fun c => negb (is_init c)) cs = true -> Mono s (fst (run_cmds fuel p s cs)).
+Proof.
+  induction cs as [|c r IH]; intros s HI Hc; cbn [run_cmds].
+  - apply Mono_refl.
+  - cbn [forallb] in Hc. apply andb_true_iff in Hc. destruct Hc as [Hc Hr].
+    pose proof (do_cmd_mono p fuel s c) as M. pose proof (do_cmd_inv p fuel s c HI) as I1.
+    destruct (do_cmd fuel p s c) as [s1 res]. cbn [fst] in *.
+    specialize (IH s1 I1 Hr). destruct (run_cmds fuel p s1 r) as [s2 sn]. cbn [fst] in *.
+    eapply Mono_trans; [apply M|exact IH]; auto. destruct c; auto; discriminate.
+Qed.
+
+Lemma run_cmds_acct p fuel cs : forall s,
+  Inv s -> Acct s -> forallb (fun c => negb (is_endrepl c)) cs = true -> Acct (fst (run_cmds fuel p s cs)).
+Proof.
+  induction cs as [|c r IH]; intros s HI HA Hc; cbn [run_cmds]; auto.
+  cbn [forallb] in Hc. apply andb_true_iff in Hc. destruct Hc as [Hc Hr].
+  pose proof (do_cmd_acct p fuel s c) as A. pose proof (do_cmd_inv p fuel s c HI) as I1.
+  destruct (do_cmd fuel p s c) as [s1 res]. cbn [fst] in *.
+  assert (A1 : Acct s1) by (apply A; auto; destruct c; auto; discriminate).
+  specialize (IH s1 I1 A1 Hr). destruct (run_cmds fuel p s1 r) as [s2 sn]. exact IH.
+Qed.
+
+(** step executes the first pending event, which is the key-minimum *)
+Theorem step_takes_minimum p s e r :
+  Inv s -> step_checks s = true -> pend s = e :: r -> ev_time e <= end_time s ->
+  let s' := fst (do_step p s) in
+  executed s' = e :: executed s /\ clock s' = ev_time e
+  /\ (forall x, In x (pend s) -> ev_le e x).
+Proof.
+  intros HI Ck Hp Le s'. split; [|split].
+  3: { intros x Hx. rewrite Hp in Hx. apply (sorted_head_min e r); auto. rewrite <- Hp. apply (inv_sorted _ HI). }
+  all: unfold s', do_step; rewrite Ck; cbv zeta; cbn [fst].
+  all: set (s1 := match ps s with PInit => _ | _ => s end);
+       set (s2 := emit (NStart (clock s1)) (set_rs RStarted s1)).
+  all: assert (Hp2 : pend s2 = e :: r) by (unfold s2, s1; destruct (ps s); ssimpl; auto).
+  all: assert (He2 : end_time s2 = end_time s) by (unfold s2, s1, end_time; destruct (ps s); ssimpl; auto).
+  all: assert (Ht2 : trace s2 = trace s) by (unfold s2, s1; destruct (ps s); ssimpl; auto).
+  all: rewrite Hp2, He2; destruct (Z.gtb_spec (ev_time e) (end_time s)); [lia|].
+  all: pose proof (step_event_took p s2 e r Hp2) as T.
+  - unfold executed. ssimpl. rewrite (took_trace _ _ _ _ T), Ht2. reflexivity.
+  - ssimpl. apply (took_clock _ _ _ _ T).
+Qed.
+
+(* ------------------------------------------------------------------ *)
+(** * initialize; start *)
+
+Lemma start_checks_facts s :
+  start_checks s = true -> running s = false /\ (ps s = PInit \/ ps s = PStarted) /\ clock s < end_time s.
+Proof.
+  unfold start_checks. intros H. repeat (apply andb_true_iff in H; destruct H as [H ?]).
+  repeat split.
+  - destruct (running s); auto; discriminate.
+  - destruct (ps s); auto; discriminate.
+  - apply Z.ltb_lt; auto.
+Qed.
+
+Lemma run_loop_ps p fuel s :
+  ps (run_loop fuel p s) = ps s \/ ps (run_loop fuel p s) = PEnding.
+Proof.
+  destruct (run_loop_runs p fuel s) as [evs [s1 [H1 H2]]].
+  destruct (rf_bound _ _ _ (runs_facts _ _ _ _ H1)) as (_&_&_&Fp&_).
+  destruct H2 as [R1 E|R1 HB E|R1 E]; rewrite E.
+  - left; auto.
+  - unfold stop_at_bound. cbv zeta.
+    match goal with |- context [if ?c then _ else _] => destruct c end; ssimpl; auto.
+  - left. ssimpl. auto.
+Qed.
+
+(** The C02 statement for a plain start: if the run reaches the end of the
+    replication, the events executed by it are exactly the events that were
+    pending at the start or got scheduled during the run, were not cancelled
+    while pending, and are not later than the end. *)
+Theorem start_complete p fuel s r :
+  Inv s -> Acct s -> rep s = Some r -> ps s <> PEnded ->
+  let s' := fst (do_cmd fuel p s CStart) in
+  ps s' = PEnded ->
+  exists evs newc,
+    executed s' = rev evs ++ executed s
+    /\ created s' = created s ++ newc
+    /\ clock s' = r_end r
+    /\ (forall e, In e evs -> In e (pend s) \/ In e newc)
+    /\ (forall e, In e (pend s) \/ In e newc ->
+          (In e evs <-> (~ In e (cancelled s') /\ ev_time e <= r_end r)))
+    /\ (forall e, In e (pend s') -> r_end r < ev_time e).
+Proof.
+  intros HI HA Hr Hne s' Hend. unfold s' in *. clear s'. cbn [do_cmd] in *. rewrite Hr in *.
+  unfold do_start in *. destruct (start_checks s) eqn:Ck; [|cbn [fst] in Hend; congruence].
+  destruct (start_checks_facts s Ck) as (Rn&Hps&Hlt).
+  assert (Eend : end_time s = r_end r) by (unfold end_time; rewrite Hr; reflexivity).
+  destruct (Z.ltb_spec (r_end r) (clock s)); [lia|].
+  destruct (Z.gtb_spec (r_end r) (end_time s)); [lia|].
+  cbv zeta in *. cbn [fst] in *.
+  set (s3 := emit NStarting _) in *.
+  assert (C3 : CoreClk s s3) by (unfold s3; ssimpl; destruct (ps s); coreclk).
+  assert (P3 : ps s3 = PStarted) by (unfold s3; ssimpl; destruct Hps as [Q|Q]; rewrite Q; ssimpl; auto).
+  assert (B3 : bound s3 = r_end r /\ incl s3 = true /\ rep s3 = rep s)
+    by (unfold s3; ssimpl; destruct (ps s); ssimpl; auto).
+  destruct B3 as (B3&I3&R3).
+  unfold worker_run in *. destruct (worker s3) eqn:W3.
+  1,3: exfalso; rewrite P3 in Hend; discriminate.
+  rewrite P3 in *.
+  set (a := set_rs RStarted (emit (NStart (clock s3)) s3)) in *.
+  set (b := run_loop fuel p a) in *.
+  assert (Ca : CoreClk s a) by (eapply CoreClk_trans; [exact C3|unfold a; coreclk]).
+  assert (HIa : Inv a) by (eapply CoreClk_Inv; eauto).
+  assert (HAa : Acct a) by (eapply CoreClk_Acct; eauto).
+  assert (Pb : ps b = PEnding).
+  { destruct (run_loop_ps p fuel a) as [Q|Q]; [|exact Q]. fold b in Q.
+    exfalso. unfold worker_ending in Hend. ssimpl. replace (ps a) with PStarted in Q by (symmetry; exact P3).
+    rewrite Q in Hend. ssimpl. congruence. }
+  destruct (run_loop_complete p fuel a HIa HAa eq_refl P3 Pb) as [evs [newc (H1&H2&H3&H4&H5&H6&H7)]].
+  fold b in H1, H2, H3, H5, H6, H7.
+  destruct Ca as ((Cp&Cn&Cc&Ct&Cx&Cr)&Ck').
+  assert (Eb : forall e, beyond a e = (ev_time e >? r_end r)).
+  { intros e. unfold beyond. unfold a at 1 2 3. ssimpl. rewrite B3, I3. cbn [negb]. rewrite andb_false_r, orb_false_r. reflexivity. }
+  unfold worker_ending. ssimpl. rewrite Pb.
+  exists evs, newc. unfold executed in *. ssimpl. rewrite Cc, Ct, Cp.
+  split; [exact H1|]. split; [exact H2|]. split; [rewrite H3; unfold a; ssimpl; exact B3|].
+  split; [exact H5|]. split.
+  - intros e Hin. split.
+    + intros Hev. destruct (proj1 (H6 e Hin) Hev) as [Q1 Q]. split; auto. rewrite Eb in Q.
+      destruct (Z.gtb_spec (ev_time e) (r_end r)); [discriminate|lia].
+    + intros [Q1 Q2]. apply (proj2 (H6 e Hin)). split; auto. rewrite Eb.
+      destruct (Z.gtb_spec (ev_time e) (r_end r)); [lia|reflexivity].
+  - intros e He. specialize (H7 e He). rewrite Eb in H7.
+    destruct (Z.gtb_spec (ev_time e) (r_end r)); [lia|discriminate].
+Qed.
+
+(* ------------------------------------------------------------------ *)
+(** * Cancelling what is not pending *)
+
+Theorem cancel_done_noop s k e :
+  Inv s -> nth_error (created s) k = Some e -> In e (executed s) \/ In e (cancelled s) ->
+  do_cancel s k = s.
+Proof.
+  intros HI Hn Hin. unfold do_cancel. rewrite Hn.
+  rewrite (not_pending_not_mem s e HI); auto. apply in_or_app. exact Hin.
+Qed.
+
+Theorem cancel_absent_noop s k e :
+  Inv s -> Acct s -> nth_error (created s) k = Some e -> ~ In e (pend s) -> do_cancel s k = s.
+Proof.
+  intros HI HA Hn Hnot. apply (cancel_done_noop s k e HI Hn).
+  pose proof (HA e (nth_error_In _ _ Hn)) as L. unfold live in L.
+  apply in_app_or in L. destruct L as [L|L]; [contradiction|]. apply in_app_or in L. exact L.
+Qed.
+
+(* and cancelling a pending event removes exactly that event *)
+Theorem cancel_pending_removes s k e :
+  Inv s -> Acct s -> nth_error (created s) k = Some e -> In e (pend s) ->
+  Permutation (pend s) (e :: pend (do_cancel s k)) /\ cancelled (do_cancel s k) = e :: cancelled s.
+Proof.
+  intros HI HA Hn Hin.
+  assert (M : ev_mem e (pend s) = true) by (apply ev_mem_true; exists e; auto).
+  destruct (cancel_removes_it s k e HI HA Hn M) as [_ Hp].
+  unfold do_cancel. rewrite Hn, M. ssimpl. auto.
 Qed.
